@@ -145,7 +145,11 @@ where
                     } else {
                         let mut path: Vec<(Fr, u8)> =
                             p.get_path_elements().into_iter().zip(p.get_path_index().into_iter()).collect();
-                        if k < path.len() {
+                        if kind == "cut" {
+                            path.pop();
+                        } else if kind == "ext" {
+                            path.push((v, 0));
+                        } else if k < path.len() {
                             if kind == "sib" {
                                 path[k].0 = v;
                             } else {
